@@ -201,9 +201,10 @@ def is_equivalent(lhs: Node | None, rhs: Node | None) -> bool:
 
 
 def get_common_expr_positions(*exprs: Expression) -> tuple[int, int] | None:
-    for lhs, rhs in combinations(exprs, 2):
-        if is_equivalent(lhs, rhs):
-            return exprs.index(lhs), exprs.index(rhs)
+    for i, j in combinations(range(len(exprs)), 2):
+        # `x == x` compares an operand with itself, it does not share it with the other comparison
+        if i // 2 != j // 2 and is_equivalent(exprs[i], exprs[j]):
+            return i, j
 
     return None
 
